@@ -60,7 +60,7 @@ def floors(acc, tier):
     _w.need(acc, msgs, "ok_with_minimum", 1500)
     _w.need(acc, msgs, "reverted_because_below_minimum", 500)
     for h in (1, 2, 3, 4):
-        _w.need(acc, msgs, "routes_ok_%dhop" % h, 40)
+        _w.need(acc, msgs, "routes_ok_%dhop" % h, 40 if h < 4 else 25)
     for ent in ("n", "t"):
         if not any(k.split("|")[2] == ent and k.split("|")[3] == "ok" for k in acc.classes if k.startswith("C11|")):
             msgs.append("no successful route entered with %s" % ent)
